@@ -1165,7 +1165,11 @@ impl<'a, 'b> GeneratorState<'a> {
                 self.generate_statement(body)?;
                 self.asm(JMP, &ExprType::Label(ifend_label.clone()), 0, false)?;
                 self.label(&else_label)?;
-                self.flags = saved_flags;
+                // The else part is entered from the last test of the condition with the flags
+                // it left; with && or || it is also entered from the other tests
+                if !is_compound_condition(condition) {
+                    self.flags = saved_flags;
+                }
                 self.generate_statement(else_statement)?;
                 self.label(&ifend_label)?;
             }
@@ -1258,6 +1262,18 @@ impl<'a, 'b> GeneratorState<'a> {
         self.label(&switchend_label)?;
         self.loops.pop();
         Ok(())
+    }
+}
+
+/// A condition made of several tests: && or ||, possibly under ! or inside a ternary
+fn is_compound_condition(expr: &Expr) -> bool {
+    match expr {
+        Expr::BinOp { op, .. } => matches!(
+            op,
+            Operation::Land | Operation::Lor | Operation::TernaryCond1 | Operation::TernaryCond2
+        ),
+        Expr::Not(e) => is_compound_condition(e),
+        _ => false,
     }
 }
 
